@@ -845,8 +845,12 @@ impl History {
                         let n = if cx.rng.chance(1, 6) { cx.rng.range(310, 420) } else { cx.rng.range(45, 120) };
                         hist.push(format!("add x{} 'metal <k>' to {}", n, id));
                         cx.ctx(format!("C20 lang={} history={:?}", lang, hist));
+                        // half of the bursts are families of similar words (many records share grams with a query without
+                        // matching it): how many of them are looked at depends on the limit
+                        let family = cx.rng.chance(1, 2);
+                        let fam = ["metal", "mettle", "medal", "meter", "melon", "metla", "abcdqqqqq", "abdcxyz"];
                         for k in 0..n {
-                            let t = format!("metal {}", k);
+                            let t = if family { format!("{} {}", fam[k % fam.len()], k) } else { format!("metal {}", k) };
                             let (rid, ra) = (if k % 3 == 0 { (1usize << 32) + k } else { 2000 + k }, k % 7);
                             if via_bridge {
                                 bridge::add_record(id, rid, &t, ra);
@@ -904,6 +908,7 @@ impl History {
                             2 => cx.rng.pick(&words).chars().take(2).collect(),
                             _ => gen::hostile(&mut cx.rng, 4),
                         };
+                        let q = if cx.rng.chance(1, 6) { cx.rng.pick(&["metla", "mtal", "emtal", "abcdxyz", "medla", "meta"]).to_string() } else { q };
                         // the text just sent to another id, sent to this one as well
                         let q = match &last_q {
                             Some((lid, lq)) if *lid != id && cx.rng.chance(1, 2) => {
@@ -923,6 +928,22 @@ impl History {
                         let m = model.get_mut(&id).unwrap();
                         m.1 = m.0.search(&q);
                         cx.count("searches");
+                        if cx.rng.chance(1, 4) {
+                            // the limit changes and the very same text is searched again on the same id
+                            let lim = *cx.rng.pick(&[1usize, 2, 3, 4, 12]);
+                            hist.push(format!("limit({},{}) search({},{:?})", id, lim, id, q));
+                            cx.ctx(format!("C20 lang={} history={:?}", lang, hist));
+                            if via_bridge {
+                                bridge::set_limit(id, lim);
+                                bridge::run_search(id, &q);
+                            } else {
+                                set_limit(id, lim);
+                                run_search(id, &q);
+                            }
+                            m.0.store.limit = lim;
+                            m.1 = m.0.search(&q);
+                            cx.count("searches repeated on the same id after a limit change");
+                        }
                     }
                 }
             }
@@ -1045,7 +1066,7 @@ impl Prop for History {
         match self.0 {
             Which::NoCrash => vec![("searches", 20000, 200000), ("searches with hits", 5000, 50000), ("joined-record hits (two spans from a one-word query)", 50, 500), ("non-ASCII queries", 2000, 20000), ("limit 0", 200, 2000), ("limit 65536", 200, 2000), ("histories with boundary-value record ids", 2000, 20000), ("long-text searches", 500, 5000), ("long-text searches with a query over 255 characters", 100, 1000), ("corpus-store searches", 300, 3000), ("long-text cases with a giant word or a 1000+ word title", 20, 200), ("soak searches on one store", 600000, 2500000), ("most searches on one store max ", 66000, 66000), ("soak stores with more than 2^16 records", 2, 8), ("adds re-using the id of an earlier record", 5000, 50000), ("registry: searches", 10000, 300000), ("registry: searches with hits", 1500, 45000), ("registry: limit changes", 5000, 150000), ("registry: readers that call back into the registry", 1500, 45000)],
             Which::NoStale => vec![("search after add following an earlier search", 2000, 20000), ("search after clear following an earlier search", 500, 5000), ("search after limit following an earlier search", 500, 5000), ("empty-query search after a mutation following an earlier search", 1000, 10000), ("exhaustive histories", 20000, 200000), ("histories on a crowded store", 2000, 20000), ("histories that clear and refill a crowded store", 2000, 20000), ("histories growing a store past 64/128/256/512 records with searches in between", 200, 5000), ("histories growing a store past 1024 records with searches in between", 60, 1500), ("soak searches on one store", 1000000, 4000000), ("search repeating the previous query after a mutation", 2000, 20000), ("operations on another store of the same thread inside a history", 3000, 30000), ("registry-driven searches compared with a fresh store", 5000, 50000), ("adds re-using the id of an earlier record", 3000, 30000), ("histories whose searches run on other threads than the adds (the store is moved there and back)", 1500, 15000), ("histories whose reference stores are built and searched on threads of their own", 3000, 30000), ("histories with a very long word next to a threshold match", 2000, 20000), ("histories with more than twenty fully tied records and a shrinking limit", 2000, 20000)],
-            Which::Registry => vec![("observations", 20000, 200000), ("observations with >= 2 live ids holding results", 2000, 20000), ("destroy", 300, 3000), ("searches", 3000, 30000), ("histories over 4-20 store ids", 1000, 10000), ("bursts of 45-120 records", 300, 3000), ("stores created with another language than their neighbours", 3000, 30000), ("searches repeating the text just sent to another id", 2000, 20000), ("histories whose result buffers are read only now and then", 5000, 50000), ("reads that add a record from inside the reader", 5000, 50000)],
+            Which::Registry => vec![("observations", 20000, 200000), ("observations with >= 2 live ids holding results", 2000, 20000), ("destroy", 300, 3000), ("searches", 3000, 30000), ("histories over 4-20 store ids", 1000, 10000), ("bursts of 45-120 records", 300, 3000), ("stores created with another language than their neighbours", 3000, 30000), ("searches repeating the text just sent to another id", 2000, 20000), ("histories whose result buffers are read only now and then", 5000, 50000), ("reads that add a record from inside the reader", 5000, 50000), ("searches repeated on the same id after a limit change", 5000, 50000)],
         }
     }
     fn run(&self, cx: &mut Cx, stream: &str, idx: u64) {
